@@ -1193,7 +1193,7 @@ PROPS["C20"] = {
     "post": c20_post,
     "nontrivial": lambda c, r: "defineComponent(" in c["src"] or "defineComponent (" in c["src"],
     "theorems": ["C20_off_untouched", "C20_other_calls_untouched", "C20_gate_iff", "C20_member_callee_never", "C20_import_other_module",
-                 "C20_explicit_option_kept", "C20_spread_arguments_untouched", "C20_no_arguments_untouched", "C20_options_expression_spread_last",
+                 "C20_explicit_option_kept", "C20_spread_arguments_untouched", "C20_no_arguments_untouched", "C20_computed_key_entry_wins", "C20_template_key_is_explicit", "C20_options_expression_spread_last",
                  "insertBeforeFirstSpread_eq", "C20_user_wins_semantic", "visit_inert", "visit_dc_none", "visitKids_dc_none"],
     "cases": c20_cases,
     "explanation": "oracle: every user-written call of the input is aligned with the same call of the real output; a changed call must be a call of the binding imported by name from 'vue' with resolveType on, must not have a spread among its first two arguments, must keep every user-written option entry in order, and every injected props/emits/name entry must sit BEFORE any user entry or spread that can provide the same key (so that what the user wrote is what Vue receives); name only for `const x = defineComponent(...)` with the variable's name",
